@@ -261,6 +261,14 @@ def s_doc():
     return st.builds(lambda d, f: {"kind": "doc", "doc": d, "files": f == 0}, GM.documents(), st.integers(0, 3))
 
 
+def s_straddle():
+    def build(seg, d):
+        d = {"segs": [seg] + [x for x in d["segs"] if x[0] != "bom"]}
+        return {"kind": "doc", "doc": d, "files": True}
+
+    return st.builds(build, GM.straddle_segment(), GM.documents(max_params=3))
+
+
 def s_chartdoc():
     return st.builds(lambda d: {"kind": "sscchart", "doc": d}, GM.documents(max_params=7, chart_doc=True))
 
@@ -286,6 +294,7 @@ def parts(tier):
     return extra + [
         {"name": "corpus", "kind": "fixed", "cases": fixed_cases},
         {"name": "documents", "kind": "hypothesis", "strategy": s_doc, "examples": 2500 if q else 16 * 15000},
+        {"name": "buffer-straddling-files", "kind": "hypothesis", "strategy": s_straddle, "examples": 160 if q else 16 * 400},
         {"name": "ssc-chart-texts", "kind": "hypothesis", "strategy": s_chartdoc, "examples": 1200 if q else 16 * 6000},
         {"name": "sm-chart-components", "kind": "hypothesis", "strategy": s_smchart, "examples": 800 if q else 16 * 4000},
         {"name": "corpus-mutations", "kind": "hypothesis", "strategy": s_mut, "examples": 400 if q else 16 * 2500},
